@@ -15,14 +15,14 @@
 (***************************************************************************)
 EXTENDS AddrText, Json
 
-CONSTANTS K_EDITS, MAXLEN, SEEDSEL, GEN
+CONSTANTS K_EDITS, MAXLEN, SEEDSEL, TSEL, GEN      \* TSEL: the target types evaluated in this run
 
 VARIABLES s,    \* the token string (sequence of class names)
           n,    \* number of edits applied to the seed
           res   \* [T |-> [g |-> grammar result, i |-> coded-parser result]] for s (a function of s)
 
 Struct == [LB |-> [k |-> "lb"], RB |-> [k |-> "rb"], CM |-> [k |-> "cm"], DS |-> [k |-> "ds"],
-           CL |-> [k |-> "cl"], SC |-> [k |-> "sc"], WS |-> [k |-> "ws"]]
+           CL |-> [k |-> "cl"], SC |-> [k |-> "sc"], WS |-> [k |-> "ws"], HS |-> [k |-> "hs"]]
 \* atom classes = fact vectors (see AddrText); literals per class are in the harness (fn literals)
 AtomN1 == [k |-> "a", d16 |-> 1, d32 |-> 1, d64 |-> 1, h16 |-> 1, h4 |-> 1]  \* "0" "110" "9999"
 AtomV4 == [k |-> "a", v4 |-> 1]
@@ -55,6 +55,7 @@ V6F   == {<<"CL", "CL">>, <<"CL", "CL", "N1">>, <<"H1", "CL", "N1", "CL", "CL", 
           <<"H1", "CL", "N1", "CL", "N1", "CL", "N1", "CL", "H1", "CL", "N1", "CL", "N1", "CL", "H1">>}
 HostF(kinds) == (IF "v4" \in kinds THEN {<<"V4">>} ELSE {}) \cup (IF "v6" \in kinds THEN V6F ELSE {})
                 \cup (IF "svc" \in kinds THEN {<<"SVC">>} ELSE {})
+HostFq == {<<"V4">>, <<"SVC">>, <<"CL", "CL">>, <<"CL", "CL", "N1">>, <<"H1", "CL", "N1", "CL", "CL", "N1">>, <<"CL", "CL", "H1", "CL", "V4">>}
 ShowIa(isd, as)     == isd \o <<"DS">> \o as
 ShowAddr(ia, h)     == ia \o <<"CM">> \o h
 ShowSock(ia, h, p)  == <<"LB">> \o ShowAddr(ia, h) \o <<"RB", "CL">> \o p
@@ -71,6 +72,11 @@ TxtF   == {<<"PFX", "SC">> \o ShowEntry(IaHex, <<"V4">>),
 TxtWs  == {<<"PFX", "SC", "WS", "LB", "WS">> \o IaHex \o <<"WS", "CM", "WS", "V4", "WS", "RB", "WS", "CM", "WS">>
              \o ShowEntry(IaHex, <<"V4">>) \o <<"WS">>}
 
+\* hop predicates of the policy language
+PredF == {<<"N1">>, <<"N2", "DS", "N1">>, <<"N1", "DS", "H1", "CL", "N1", "CL", "H1">>,
+          <<"N1", "DS", "N1", "HS", "N1">>, <<"N1", "DS", "N3", "HS", "N1", "CM", "N2">>,
+          <<"N1", "DS", "H1", "CL", "N1", "CL", "H1", "HS", "N2", "CM", "N1">>}
+
 \* (type, displayed form) pairs: every displayed form must parse back as that type
 Shown == ({"Isd"} \X IsdF) \cup ({"Asn"} \X AsnF) \cup ({"IsdAsn"} \X IaF)
          \cup ({"Svc"} \X {<<"SVC">>}) \cup ({"Host"} \X HostF({"v4", "v6", "svc"}))
@@ -80,8 +86,9 @@ Shown == ({"Isd"} \X IsdF) \cup ({"Asn"} \X AsnF) \cup ({"IsdAsn"} \X IaF)
          \cup ({"Sock"} \X SockF({"v4", "v6", "svc"})) \cup ({"SockIp"} \X SockF({"v4", "v6"}))
          \cup ({"TxtRecord"} \X TxtF)
          \cup ({"TxtPayload"} \X {SubSeq(t, 3, Len(t)) : t \in TxtF})
+         \cup ({"HopPred"} \X PredF) \cup ({"IfPred"} \X {<<"N1">>, <<"N1", "CM", "N2">>})
 
-RoundTrip == \A tf \in Shown : LET cx == Cx(tf[2]) IN I(tf[1], cx).o = "acc" /\ I(tf[1], cx) = G(tf[1], cx)
+RoundTrip == \A tf \in Shown : tf[1] \in TSEL => LET cx == Cx(tf[2]) IN I(tf[1], cx).o = "acc" /\ I(tf[1], cx) = G(tf[1], cx)
 
 \* seed groups selectable per configuration
 SeedGroup(g) ==
@@ -89,9 +96,13 @@ SeedGroup(g) ==
     [] g = "ids"   -> IsdF \cup AsnF \cup IaF \cup HostF({"v4", "v6", "svc"})
     [] g = "addr"  -> AddrF({"v4", "v6", "svc"})
     [] g = "sock"  -> SockF({"v4", "v6", "svc"})
+    [] g = "addrq" -> {ShowAddr(a, h) : a \in IaFew, h \in HostFq}     \* quick tier: without the 8-group IPv6 forms
+    [] g = "sockq" -> {ShowSock(a, h, <<"N1">>) : a \in IaFew, h \in HostFq}
+    [] g = "idsq"  -> IsdF \cup AsnF \cup IaF \cup HostFq \cup {<<"H1", "CL", "N1", "CL", "N1", "CL", "N1", "CL", "H1", "CL", "N1", "CL", "N1", "CL", "H1">>}
     [] g = "socksmall" -> {ShowSock(ShowIa(<<"N1">>, <<"N1">>), h, <<"N1">>) : h \in {<<"V4">>, <<"SVC">>, <<"CL", "CL", "N1">>}}
     [] g = "addrsmall" -> {ShowAddr(ShowIa(<<"N1">>, <<"N1">>), h) : h \in {<<"V4">>, <<"CL", "CL", "N1">>}}
     [] g = "sockone" -> {ShowSock(ShowIa(<<"N1">>, <<"N1">>), <<"V4">>, <<"N1">>)}
+    [] g = "pred"  -> PredF \cup {<<"N1", "CM", "N2">>}
     [] g = "txt"   -> TxtF \cup TxtWs
     [] g = "txtp"  -> {SubSeq(t, 3, Len(t)) : t \in TxtF}
     [] g = "txtsmall" -> {<<"PFX", "SC">> \o ShowEntry(ShowIa(<<"N1">>, <<"N1">>), <<"V4">>)}
@@ -107,7 +118,7 @@ Ins(str, p, c) == SubSeq(str, 1, p) \o <<c>> \o SubSeq(str, p+1, Len(str))
 Lexable(str) == /\ Len(str) <= MAXLEN
                 /\ \A p \in 1..(Len(str)-1) : ~(IsAtomC(str[p]) /\ IsAtomC(str[p+1]))
 
-Results(str) == LET cx == Cx(str) IN [T \in Types |-> [g |-> G(T, cx), i |-> I(T, cx)]]
+Results(str) == LET cx == Cx(str) IN [T \in TSEL |-> [g |-> G(T, cx), i |-> I(T, cx)]]
 
 MCInit == s \in Seeds /\ n = 0 /\ res = Results(s)
 MCNext == /\ n < K_EDITS
@@ -123,13 +134,13 @@ ASSUME (FIXED /\ FIXTXT) => RoundTrip   \* (value positions of the pinned-commit
 ASSUME \A sd \in Seeds : Lexable(sd)
 
 \* I => P on every explored string
-NoPanic  == \A T \in Types : res[T].i.o # "panic"
-Sound    == \A T \in Types : res[T].i.o = "acc" => res[T].g = res[T].i
-Complete == \A T \in Types : res[T].g.o = "acc" => res[T].i.o = "acc"
+NoPanic  == \A T \in TSEL : res[T].i.o # "panic"
+Sound    == \A T \in TSEL : res[T].i.o = "acc" => res[T].g = res[T].i
+Complete == \A T \in TSEL : res[T].g.o = "acc" => res[T].i.o = "acc"
 
 \* generation: per string the grammar's verdict (expected acceptance set with value terms)
 \* and the I-layer outcome per type where it is not "rej"
 Emit == GEN => PrintT(<<"CASE", ToJson([s |-> s,
-                 g |-> [T \in {T \in Types : res[T].g.o = "acc"} |-> res[T].g.v],
-                 i |-> [T \in {T \in Types : res[T].i.o # "rej"} |-> res[T].i.o]])>>)
+                 g |-> [T \in {T \in TSEL : res[T].g.o = "acc"} |-> res[T].g.v],
+                 i |-> [T \in {T \in TSEL : res[T].i.o # "rej"} |-> res[T].i.o]])>>)
 =============================================================================
